@@ -394,6 +394,12 @@ class List(list, base.Symbolic, pg_typing.CustomTyping):
       if isinstance(item, base.TopologyAware):
         item.sym_setpath(utils.KeyPath(idx, new_path))
 
+  def _sync_children_paths(self) -> None:
+    """Updates the paths of children whose index has changed."""
+    for idx, item in self.sym_items():
+      if isinstance(item, base.TopologyAware) and item.sym_path.key != idx:
+        item.sym_setpath(utils.KeyPath(idx, self.sym_path))
+
   def _set_item_without_permission_check(  # pytype: disable=signature-mismatch  # overriding-parameter-type-checks
       self, key: int, value: Any) -> Optional[base.FieldUpdate]:
     """Set or add an item without permission check."""
@@ -421,6 +427,7 @@ class List(list, base.Symbolic, pg_typing.CustomTyping):
     if index < len(self):
       if should_insert:
         list.insert(self, index, new_value)
+        self._sync_children_paths()
       else:
         list.__setitem__(self, index, new_value)
         # Detach old value from object tree.
@@ -469,9 +476,7 @@ class List(list, base.Symbolic, pg_typing.CustomTyping):
         list.__delitem__(self, i)
 
     # Update paths for children.
-    for idx, item in self.sym_items():
-      if isinstance(item, base.TopologyAware) and item.sym_path.key != idx:
-        item.sym_setpath(utils.KeyPath(idx, self.sym_path))
+    self._sync_children_paths()
 
     if self._onchange_callback is not None:
       self._onchange_callback(field_updates)
@@ -600,6 +605,7 @@ class List(list, base.Symbolic, pg_typing.CustomTyping):
     # Detach old value from object tree.
     if isinstance(old_value, base.TopologyAware):
       old_value.sym_setparent(None)
+    self._sync_children_paths()
 
     if flags.is_change_notification_enabled():
       self._notify_field_updates([
@@ -744,12 +750,14 @@ class List(list, base.Symbolic, pg_typing.CustomTyping):
     if base.treats_as_sealed(self):
       raise base.WritePermissionError('Cannot sort a sealed List.')
     super().sort(key=key, reverse=reverse)
+    self._sync_children_paths()
 
   def reverse(self) -> None:
     """Reverse the elements of the list in place."""
     if base.treats_as_sealed(self):
       raise base.WritePermissionError('Cannot reverse a sealed List.')
     super().reverse()
+    self._sync_children_paths()
 
   def custom_apply(
       self,
